@@ -27,6 +27,67 @@ pub enum Mutation {
     /// that verify() finds a matching checksum on otherwise arbitrary bytes
     /// (untrusted data can carry a valid checksum: a CRC is not a MAC)
     FixChecksum,
+    /// replace the trailer by a value *derived from the body* that a lenient
+    /// or "compatible" verify() might accept by mistake (the plain CRC-32C,
+    /// the mask applied half-way, other byte order, ...). Does nothing when
+    /// the derived value equals the right trailer.
+    TrailerFrom { kind: TrailerKind },
+}
+
+#[derive(Clone, Copy, Debug, PartialEq, Eq)]
+pub enum TrailerKind {
+    Unmasked,
+    UnmaskedNoFinalXor,
+    MaskedBigEndian,
+    MaskedInverted,
+    RotateOnly,
+    AddOnly,
+    MaskedTwice,
+    MaskedOfWholeFile,
+}
+
+pub const TRAILER_KINDS: [TrailerKind; 8] = [
+    TrailerKind::Unmasked,
+    TrailerKind::UnmaskedNoFinalXor,
+    TrailerKind::MaskedBigEndian,
+    TrailerKind::MaskedInverted,
+    TrailerKind::RotateOnly,
+    TrailerKind::AddOnly,
+    TrailerKind::MaskedTwice,
+    TrailerKind::MaskedOfWholeFile,
+];
+
+impl TrailerKind {
+    pub fn name(self) -> &'static str {
+        match self {
+            TrailerKind::Unmasked => "unmasked_crc32c",
+            TrailerKind::UnmaskedNoFinalXor => "unmasked_crc32c_without_final_xor",
+            TrailerKind::MaskedBigEndian => "masked_big_endian",
+            TrailerKind::MaskedInverted => "masked_inverted",
+            TrailerKind::RotateOnly => "rotated_not_offset",
+            TrailerKind::AddOnly => "offset_not_rotated",
+            TrailerKind::MaskedTwice => "masked_twice",
+            TrailerKind::MaskedOfWholeFile => "masked_crc32c_of_whole_file",
+        }
+    }
+    pub fn from_name(n: &str) -> Option<TrailerKind> {
+        TRAILER_KINDS.iter().copied().find(|k| k.name() == n)
+    }
+    pub fn trailer(self, file: &[u8]) -> [u8; 4] {
+        let n = file.len();
+        let body = &file[..n - 4];
+        let c = crate::model::crc32c_fast(body);
+        match self {
+            TrailerKind::Unmasked => c.to_le_bytes(),
+            TrailerKind::UnmaskedNoFinalXor => (!c).to_le_bytes(),
+            TrailerKind::MaskedBigEndian => crate::model::mask(c).to_be_bytes(),
+            TrailerKind::MaskedInverted => (!crate::model::mask(c)).to_le_bytes(),
+            TrailerKind::RotateOnly => c.rotate_right(15).to_le_bytes(),
+            TrailerKind::AddOnly => c.wrapping_add(0xA282_EAD8).to_le_bytes(),
+            TrailerKind::MaskedTwice => crate::model::mask(crate::model::mask(c)).to_le_bytes(),
+            TrailerKind::MaskedOfWholeFile => crate::model::masked_crc32c(file).to_le_bytes(),
+        }
+    }
 }
 
 #[derive(Clone, Debug, PartialEq, Eq)]
@@ -89,6 +150,13 @@ pub fn apply(bytes: &mut Vec<u8>, m: &Mutation) {
                 let n = bytes.len();
                 bytes.truncate(n - 4);
                 bytes[..8].copy_from_slice(&v.to_le_bytes());
+            }
+        }
+        Mutation::TrailerFrom { kind } => {
+            let n = bytes.len();
+            if n >= 4 {
+                let t = kind.trailer(bytes);
+                bytes[n - 4..].copy_from_slice(&t);
             }
         }
         Mutation::FixChecksum => {
